@@ -319,7 +319,10 @@ class MinGenSet():
         start_time = time.perf_counter()
 
         # Solve for increasing numbers of elements in the generating set
-        for k in range(self.lowerbound, max(self.lowerbound+1, len(self.initial_numbers))):
+        # A generating set never needs more than (number of distinct values) + 1 elements,
+        # plus (parts - 1) per partition constraint.
+        upper = len(set(self.numbers)) + 1 + sum(max(len(c) - 1, 0) for c in (self.partition_constraints or []))
+        for k in range(self.lowerbound, max(self.lowerbound, upper) + 1):
             self._create_solver(k=k)
             self.solver.optimize()
 
